@@ -64,6 +64,70 @@ PROPS = {
         "oracle": True,
         "tie": "hand-written model (Model/Ops.lean: lines, Lines*, ApplyOpts) tied by A-lines, A-apply",
     },
+    "C06": {
+        "lean_modules": ["RosedVerif.Props.C06"],
+        "theorems": [],
+        "groups": ["A-wrap", "A-manip"],
+        "oracle": True,
+        "tie": "hand-written model (Model/Manip.lean Wrap, appendWordToWrappedLine, CollapseSpace; Model/Ops.lean WrapOpts) tied by A-wrap, A-manip; Spec.wrapLines tied directly to the real code on stable vocabularies by the oracle",
+    },
+    "C07": {
+        "lean_modules": ["RosedVerif.Props.C07"],
+        "theorems": [],
+        "groups": ["A-collapse", "A-wrap", "A-justify", "A-align", "A-indent"],
+        "oracle": True,
+        "tie": "hand-written model tied by A-collapse, A-wrap, A-justify, A-align, A-indent",
+    },
+    "C12": {
+        "lean_modules": ["RosedVerif.Props.C12"],
+        "theorems": [],
+        "groups": ["A-justify", "A-manip"],
+        "oracle": True,
+        "tie": "hand-written model (Model/Manip.lean JustifyLine; Model/Ops.lean JustifyOpts) tied by A-justify, A-manip",
+    },
+    "C13": {
+        "lean_modules": ["RosedVerif.Props.C13"],
+        "theorems": [],
+        "groups": ["A-align", "A-manip"],
+        "oracle": True,
+        "tie": "hand-written model (Model/Manip.lean AlignLine*; Model/Ops.lean AlignOpts) tied by A-align, A-manip",
+    },
+    "C08": {
+        "lean_modules": ["RosedVerif.Props.C08"],
+        "theorems": [],
+        "groups": ["POOL"],
+        "oracle": True,
+        "tie": "POOL histories: every editor of a growing pool is fully re-read after every step on the real code and on the model",
+    },
+    "C14": {
+        "lean_modules": ["RosedVerif.Props.C14"],
+        "theorems": [],
+        "groups": ["A-twocol"],
+        "oracle": True,
+        "tie": "hand-written model (Model/Ops.lean InsertTwoColumnsOpts, Model/Manip.lean CombineColumnBlocks, Wrap) tied by A-twocol; cluster-level instance tied directly on stable vocabularies",
+    },
+    "C15": {
+        "lean_modules": ["RosedVerif.Props.C15"],
+        "theorems": [],
+        "groups": ["A-deftable"],
+        "oracle": True,
+        "tie": "hand-written model (Model/Ops.lean InsertDefinitionsTableOpts) tied by A-deftable; cluster-level instance tied directly on stable vocabularies",
+    },
+    "C16": {
+        "lean_modules": ["RosedVerif.Props.C16"],
+        "theorems": [],
+        "groups": ["A-table"],
+        "oracle": True,
+        "tie": "hand-written model (Model/Table.lean MakeTable, buildTable) tied by A-table; cluster-level instance tied directly on stable vocabularies",
+    },
+    "C18": {
+        "lean_modules": ["RosedVerif.Props.C18"],
+        "theorems": [],
+        "groups": ["A-chars", "A-commit", "A-edit", "A-lines", "A-apply", "A-para", "A-collapse", "A-wrap",
+                   "A-justify", "A-align", "A-indent", "A-twocol", "A-deftable", "A-table", "A-options", "POOL"],
+        "oracle": True,
+        "tie": "every group's cases run under recover + watchdog + utf8.ValidString on the real code and compared with the model's Except result",
+    },
 }
 
 
